@@ -1,7 +1,7 @@
 (* Property C11 — generated C is memory-safe and well-formed for every model. *)
 From Coq Require Import String ZArith List Bool Arith.
-From TLX Require Import Model.Bits Model.CLang Model.Netlist Model.GenDense Model.Wrapper Model.Validate.
-From TLX Require Import Proofs.CLangFacts Proofs.GenDenseFacts Proofs.WrapperFacts Proofs.ValidateFacts Proofs.C11Facts.
+From TLX Require Import Model.Bits Model.CLang Model.Netlist Model.GenDense Model.GenNet Model.Wrapper Model.Validate.
+From TLX Require Import Proofs.CLangFacts Proofs.GenDenseFacts Proofs.WrapperFacts Proofs.ValidateFacts Proofs.C11Facts Proofs.GenNetFacts.
 Import ListNotations.
 
 (* For EVERY well-formed dense model, word size and input: the generated logic_net runs without an
@@ -11,6 +11,14 @@ Theorem C11_safe_dense : forall W m inp,
   (0 < W)%Z -> wf_dense_model m = true -> length inp = dm_in m ->
   exists out, execZ W (gen_dense m) inp = Some out /\ length out = out_width m.
 Proof. exact safe_dense. Qed.
+
+(* The same for EVERY well-formed stack Conv (Conv|Pool)* [Flatten Dense*], 2-D or 3-D: all conv temporaries, the padded-window
+   reads, the pooling windows, the flatten copy, the ping-pong buffers and the final copy stay inside their declared arrays and
+   read only cells written before. *)
+Theorem C11_safe_net : forall W m inp,
+  (0 < W)%Z -> wf_spatial_model m = true -> length inp = net_in m ->
+  exists out, execZ W (gen_net m) inp = Some out /\ length out = net_out m.
+Proof. exact safe_net. Qed.
 
 (* A verified checker for ONE emitted program (any layer kinds): if it accepts, the program is memory safe
    and defines every cell before reading it, for every input and every word size. *)
@@ -41,6 +49,7 @@ Example C11_example_unsafe : (* an undersized buffer is rejected by the checker 
 Proof. repeat split; vm_compute; reflexivity. Qed.
 
 Eval compute in "PA:C11_safe_dense"%string. Print Assumptions C11_safe_dense.
+Eval compute in "PA:C11_safe_net"%string. Print Assumptions C11_safe_net.
 Eval compute in "PA:C11_safe_check_sound"%string. Print Assumptions C11_safe_check_sound.
 Eval compute in "PA:C11_deterministic"%string. Print Assumptions C11_deterministic.
 Eval compute in "PA:C11_wrapper_safe"%string. Print Assumptions C11_wrapper_safe.
